@@ -150,6 +150,7 @@ func vsOpenWorld(c *sim.Case, res *sim.Result, wrap func(redisBackend) redisBack
 	// small; background compaction has nothing to do with <= a few hundred writes.
 	verifhook.Set("lsm.no-background-compaction", 1)
 	verifhook.Set("lsm.serial-table-build", 1)
+	verifhook.Set("redis.txn-retries", int(c.CfgInt("txn_retries", 0))) // 0 = shipped budget (64)
 	defer func() {
 		if r := recover(); r != nil {
 			err = fmt.Errorf("NoKV.Open panicked: %v", r)
